@@ -310,6 +310,10 @@ let process (ic : in_channel) =
             | MSync (_, _) when toks = [ "DROP" ] ->
               Printf.printf "%d %s -> - | dropped live=0:0\n" !idx line;
               mode := MDead
+            | MSync (c, r) when List.hd toks = "Q" ->
+              let k = n_of_string (List.nth toks 1) in
+              Printf.printf "%d %s -> %s | %s\n" !idx line
+                (string_of_n (frequency r.sr_state.s_sk (c.sc_hash k))) (fmt_sstate r.sr_state)
             | MSync (c, r) ->
               (match sstep c r (parse_sop toks) with
                | Ok (r', out) ->
@@ -325,6 +329,10 @@ let process (ic : in_channel) =
             | MUnsync (_, _) when toks = [ "DROP" ] ->
               Printf.printf "%d %s -> - | dropped live=0:0\n" !idx line;
               mode := MDead
+            | MUnsync (c, r) when List.hd toks = "Q" ->
+              let k = n_of_string (List.nth toks 1) in
+              Printf.printf "%d %s -> %s | %s\n" !idx line
+                (string_of_n (frequency r.ur_state.u_sk (c.uc_hash k))) (fmt_ustate r.ur_state)
             | MUnsync (c, r) ->
               (match ustep c r (parse_uop toks) with
                | Ok (r', out) ->
